@@ -592,7 +592,16 @@ func (f *SQLFormatter) formatJoin(join *ast.JoinClause) error {
 	f.builder.WriteString(" ")
 	f.formatTableReference(&join.Right)
 
-	if join.Condition != nil {
+	if cols, ok := join.Condition.(*ast.ListExpression); ok && cols != nil {
+		// the parser represents USING (a, b) as a list of column names
+		f.builder.WriteString(" ")
+		f.writeKeyword("USING")
+		f.builder.WriteString(" (")
+		if err := f.formatExpression(cols); err != nil {
+			return err
+		}
+		f.builder.WriteString(")")
+	} else if join.Condition != nil {
 		f.builder.WriteString(" ")
 		f.writeKeyword("ON")
 		f.builder.WriteString(" ")
